@@ -16,5 +16,6 @@ MC_RandChoices == {1}
 MC_Msgs == {<<>>}
 MC_MaxExtra == 0
 MC_EMIT == TRUE
+MC_ListOrders == {"asc"}
 
 ====
